@@ -38,6 +38,7 @@ type VP9PayCase struct {
 	InitialID   uint16     `json:"initial_id"`
 	MTU         uint16     `json:"mtu"`
 	Frames      []VP9Frame `json:"frames"`
+	DefaultID   bool       `json:"default_id,omitempty"`   // InitialPictureIDFn left nil: the start id is the library\'s (random) choice, learned from the first packet
 	OneReceiver bool       `json:"one_receiver,omitempty"` // the whole stream is decoded by one VP9Packet, not a fresh one per packet
 }
 
@@ -48,6 +49,8 @@ type VP9DescCase struct {
 	// Pre: descriptors (each followed by two payload bytes) decoded earlier into the SAME VP9Packet;
 	// the reading of this one must not depend on them
 	Pre []vp9desc.Desc `json:"pre,omitempty"`
+	// Zero: zero-allocation mode (reduced feature set): well-formed packets accepted, bytes after the descriptor returned
+	Zero bool `json:"zero,omitempty"`
 }
 
 type VP9HdrCase struct {
@@ -66,6 +69,12 @@ func checkC12Pay(r *run, c *VP9PayCase) (CaseInfo, error) {
 	init := c.InitialID
 	p := &codecs.VP9Payloader{FlexibleMode: c.Flexible, InitialPictureIDFn: func() uint16 { return init }}
 	id := c.InitialID & 0x7FFF
+	learnID := false
+	if c.DefaultID {
+		p.InitialPictureIDFn = nil
+		learnID = true
+		ci.class("default-initial-picture-id")
+	}
 	var stream codecs.VP9Packet
 	if c.Flexible {
 		ci.class("flexible")
@@ -125,6 +134,9 @@ func checkC12Pay(r *run, c *VP9PayCase) (CaseInfo, error) {
 			}
 			if d.F != flex {
 				return ci, failf("%s: F=%v", what, d.F)
+			}
+			if learnID {
+				id, learnID = d.PictureID, false
 			}
 			if !d.I || !d.M || d.PictureID != id || vp.PictureID != id {
 				return ci, failf("%s: I=%v M=%v picture id %d (VP9Packet %d), want the 15-bit id %d", what, d.I, d.M, d.PictureID, vp.PictureID, id)
@@ -236,6 +248,10 @@ func checkC12Desc(r *run, c *VP9DescCase) (CaseInfo, error) {
 	}
 	ci.Nontrivial = (c.D.V && c.D.G && len(c.D.PGs) > 0) || len(in) < len(db) || (c.D.F && c.D.P && len(c.D.PDiff) >= 2)
 	var vp codecs.VP9Packet
+	if c.Zero {
+		vp.SetZeroAllocation(true)
+		ci.class("zero-allocation-mode")
+	}
 	for i := range c.Pre {
 		_, _ = vp.Unmarshal(append(vp9desc.Build(&c.Pre[i]), 0xAB, 0xCD))
 		ci.class("receiver-used-before")
@@ -247,7 +263,7 @@ func checkC12Desc(r *run, c *VP9DescCase) (CaseInfo, error) {
 	payload, err := vp.Unmarshal(arg)
 	if len(in) < len(db) {
 		ci.class("truncated-descriptor")
-		if err == nil {
+		if err == nil && !c.Zero {
 			return ci, failf("descriptor %s cut to %d bytes is accepted", hx(db), len(in))
 		}
 
@@ -264,6 +280,9 @@ func checkC12Desc(r *run, c *VP9DescCase) (CaseInfo, error) {
 	}
 	if !bytes.Equal(payload, in[len(db):]) || !bytes.Equal(vp.Payload, in[len(db):]) {
 		return ci, failf("descriptor %s: returned payload %s, want %s", hx(db), hx(payload), hx(in[len(db):]))
+	}
+	if c.Zero {
+		return ci, nil
 	}
 	if got, want := vp9LibObs(&vp), vp9Obs(&c.D); got != want {
 		return ci, failf("descriptor %s decoded as\n  %s\nwant\n  %s", hx(db), got, want)
@@ -380,7 +399,7 @@ func genVP9Hdr(t *rapid.T, forceKey int) vp9hdr.Header {
 }
 
 func genVP9PayCase(t *rapid.T) *VP9PayCase {
-	c := &VP9PayCase{Flexible: genBool(t, "flexible"), OneReceiver: genBool(t, "onereceiver")}
+	c := &VP9PayCase{Flexible: genBool(t, "flexible"), OneReceiver: genBool(t, "onereceiver"), DefaultID: rapid.IntRange(0, 5).Draw(t, "defaultid") == 0}
 	c.InitialID = uint16(biased(t, "initial", 0, 65535, 0, 1, 127, 128, 32766, 32767, 32768, 65535))
 	nf := rapid.IntRange(1, 4).Draw(t, "nframes")
 	minMTU := 4
@@ -413,6 +432,7 @@ func genVP9PayCase(t *rapid.T) *VP9PayCase {
 
 func genVP9DescCase(t *rapid.T) *VP9DescCase {
 	c := genVP9DescCase1(t)
+	c.Zero = rapid.IntRange(0, 7).Draw(t, "zero") == 0
 	if rapid.IntRange(0, 1).Draw(t, "withpre") == 1 {
 		for i, k := 0, rapid.IntRange(1, 2).Draw(t, "npre"); i < k; i++ {
 			c.Pre = append(c.Pre, genVP9DescCase1(t).D)
@@ -487,7 +507,7 @@ func genVP9DescCase1(t *rapid.T) *VP9DescCase {
 	return c
 }
 
-const ruleC12 = "payloader: 1-4 frames whose uncompressed header prefix is written bit by bit by an independent writer (profiles 0-3 with reserved bit, show_existing_frame, key/non-key, all colour spaces incl. RGB, subsampling bits, size-1 in [0,65534]^2, garbage in reserved and trailing bits) followed by 0-5000 random bytes (one case in 60: a frame of 65520-200000 bytes), flexible and non-flexible mode (one case in six flips the public FlexibleMode field between frames), MTU >= 4 (>= 12 when a non-flexible key frame occurs) biased to the thresholds, initial picture id biased to 0,127,128,32766,32767,65535; every packet is decoded by VP9Packet (a fresh one per packet, or one for the whole stream) and by an independent RFC 9628 descriptor parser: concatenation = frame, B/E placement, IsPartitionHead=B, F=mode, 15-bit id constant per frame and +1 per frame mod 2^15, <= MTU, non-flexible P=non-key and V/Y/width/height on the first packet of a key frame. descriptor: reference-built descriptors (I 7/15 bit, L, F with I, 1-3 P_DIFF, SS with N_S 0-7, Y, G, N_G 0-255 with R 0-3; SID 0-4 since pion supports 5 spatial layers by design) + payload, all truncations rejected; half of the cases decode 1-2 other descriptors into the same VP9Packet first. header: vp9.Header.Unmarshal equals the writer's fields and rejects every short byte prefix. Non-trivial = >=2 packets, non-flexible key frame with profile>=1 or RGB, SS with picture groups, >=2 P_DIFF, truncation, key-frame header; distinct = FNV-64 of the JSON case"
+const ruleC12 = "payloader: 1-4 frames whose uncompressed header prefix is written bit by bit by an independent writer (profiles 0-3 with reserved bit, show_existing_frame, key/non-key, all colour spaces incl. RGB, subsampling bits, size-1 in [0,65534]^2, garbage in reserved and trailing bits) followed by 0-5000 random bytes (one case in 60: a frame of 65520-200000 bytes), flexible and non-flexible mode (one case in six flips the public FlexibleMode field between frames), MTU >= 4 (>= 12 when a non-flexible key frame occurs) biased to the thresholds, initial picture id biased to 0,127,128,32766,32767,65535 or (one case in six) left to the library's default, then learned from the first packet; every packet is decoded by VP9Packet (a fresh one per packet, or one for the whole stream) and by an independent RFC 9628 descriptor parser: concatenation = frame, B/E placement, IsPartitionHead=B, F=mode, 15-bit id constant per frame and +1 per frame mod 2^15, <= MTU, non-flexible P=non-key and V/Y/width/height on the first packet of a key frame. descriptor: reference-built descriptors (I 7/15 bit, L, F with I, 1-3 P_DIFF, SS with N_S 0-7, Y, G, N_G 0-255 with R 0-3; SID 0-4 since pion supports 5 spatial layers by design) + payload, all truncations rejected; half of the cases decode 1-2 other descriptors into the same VP9Packet first; one case in eight runs in zero-allocation mode (only acceptance and the returned bytes are checked). header: vp9.Header.Unmarshal equals the writer's fields and rejects every short byte prefix. Non-trivial = >=2 packets, non-flexible key frame with profile>=1 or RGB, SS with picture groups, >=2 P_DIFF, truncation, key-frame header; distinct = FNV-64 of the JSON case"
 
 func TestC12(t *testing.T) {
 	r := begin(t, "C12", "exploration", ruleC12)
